@@ -9,7 +9,7 @@ ARITY = {"new": 2, "after": 2, "before": 2, "add": 3, "nadd": 3, "ins": 3, "nins
          "fclone": 2, "flclone": 2, "ftclone": 2, "loc": 3, "walk": 4,
          "zadd": 3, "zaddn": 3, "zins": 3, "zmove": 1, "zpos": 1, "zunlink": 0, "zdestroy": 0, "zrelink": 0,
          "zclone": 0, "zlclone": 0, "ztclone": 0, "ztrav": 2, "ztravh": 1, "zloc": 1, "zfind": 0, "znext": 0,
-         "zsame": 1, "zsub": 1}
+         "zsame": 1, "zsub": 1, "parse": 4, "zparse": 1}
 NAMES = ["-", "a", "b", "c"]
 # L: a text of 21 characters (needs an allocation of its own in a default node and in a clone); B: a binary identifier;
 # M: a text of 29 characters (allocation of its own in a default node; the node of a clone is made big enough)
@@ -19,7 +19,8 @@ ORDERS = ["pre", "in", "post", "level"]
 # positions of a case line that are numbers but not node indices (for the renumbering shrinker)
 NOT_A_NODE = {"new": (1, 2), "add": (2,), "nadd": (2,), "ins": (2,), "nins": (2,), "trav": (1, 2), "find": (2, 3), "next": (2,),
               "fclone": (1,), "flclone": (1,), "ftclone": (1,), "loc": (2, 3), "walk": (1, 2, 3), "zadd": (1, 2),
-              "zaddn": (1, 3), "zins": (1, 3), "zpos": (1,), "ztrav": (1, 2), "zloc": (1,), "zsame": (1,), "zsub": (1,)}
+              "zaddn": (1, 3), "zins": (1, 3), "zpos": (1,), "ztrav": (1, 2), "zloc": (1,), "zsame": (1,), "zsub": (1,),
+              "parse": (2, 3, 4)}
 
 # ---- switches for defects of /repo that are reported with a patch but not committed yet.  While a switch is False
 # the generator leaves out the cases that run into the defect (the model is written for the patched code).
@@ -41,6 +42,124 @@ def allowed(case):
     if not PATCHED_LOCATE_PTR and "pn" in t:
         return False
     return True
+
+
+# ----------------------------------------------------------------------------- configuration texts for mpt_parse_node
+# A parsed forest is a list of (name, kids): kids is None for an option "name = v", a list for a section "name { .. }".
+# The case line carries the text (hex) for the harness and the forest it denotes (token) for the model:
+#   parse <root> <K|E> <hex> <token>      K: the parser succeeds; E: it fails after having delivered <token>
+def forest_token(f):
+    if not f:
+        return "-"
+    return "".join(nm + ("." if k is None else "(" + (forest_token(k) if k else "") + ")") for nm, k in f)
+
+
+def token_forest(tok):
+    if tok == "-":
+        return []
+
+    def items(i):
+        out = []
+        while i < len(tok) and tok[i] != ")":
+            nm = tok[i]
+            if tok[i + 1] == ".":
+                out.append((nm, None))
+                i += 2
+            else:
+                k, i = items(i + 2)
+                out.append((nm, k))
+                i += 1
+        return out, i
+    return items(0)[0]
+
+
+def forest_size(f):
+    return sum(1 + forest_size(k or []) for nm, k in f)
+
+
+def forest_prefix(f, n):
+    """the first n nodes (text order) of the forest, as a forest"""
+    left = [n]
+
+    def go(l):
+        out = []
+        for nm, k in l:
+            if left[0] <= 0:
+                break
+            left[0] -= 1
+            out.append((nm, None if k is None else go(k)))
+        return out
+    return go(f)
+
+
+def forest_lines(rng, f, noise):
+    """lines of a text in the default format that denotes f; each with (depth after the line, nodes created so far)"""
+    lines = []
+    made = [0]
+
+    def junk(d):
+        while rng.random() < noise:
+            lines.append((rng.choice(["", "  ", "# note", "\t# a = v", "#", " # b {"]), d, made[0]))
+
+    def go(l, d):
+        for nm, k in l:
+            junk(d)
+            ind = rng.choice(["", " ", "  ", "\t"]) * d
+            made[0] += 1
+            if k is None:
+                lines.append((ind + nm + rng.choice([" = v", "=v", " =v", "  =  v", " = v  "]), d, made[0]))
+            else:
+                lines.append((ind + nm + rng.choice([" {", "{", "  {"]), d + 1, made[0]))
+                go(k, d + 1)
+                junk(d + 1)
+                lines.append((ind + "}", d, made[0]))
+        junk(d)
+    go(f, 0)
+    return lines
+
+
+def parse_op(rng, root, f, kind="K", noise=0.15):
+    """the tokens of one parse operation: kind K (well-formed), E1 (a closing brace too many at the end),
+    E2 (the text ends inside a section), E3 (a closing brace too many between top-level elements)"""
+    lines = forest_lines(rng, f, noise)
+    if kind == "E2":
+        cuts = [i + 1 for i, (_, d, _) in enumerate(lines) if d > 0]
+        if not cuts:
+            kind = "E1"
+    if kind == "E3":
+        cuts = [i + 1 for i, (_, d, _) in enumerate(lines) if d == 0] + [0]
+    if kind == "K":
+        text = [l for l, _, _ in lines]
+        part = f
+    elif kind == "E1":
+        text = [l for l, _, _ in lines] + ["}"]
+        part = f
+    else:
+        c = rng.choice(cuts)
+        text = [l for l, _, _ in lines[:c]]
+        part = forest_prefix(f, lines[c - 1][2] if c else 0)
+        if kind == "E3":
+            text += ["}"] + [l for l, _, _ in lines[c:]]
+    t = "".join(l + "\n" for l in text)
+    if text and kind != "E2" and rng.random() < 0.1:
+        t = t[:-1]          # no newline at the end of the text
+    return ["parse", str(root), "K" if kind == "K" else "E", t.encode().hex() if t else "-", forest_token(part)]
+
+
+def random_forest(rng, maxn, depth=3, names="abc"):
+    left = [rng.randint(1, maxn) if maxn > 0 else 0]
+
+    def go(d):
+        out = []
+        while left[0] > 0 and rng.random() < (0.85 if d == 0 else 0.6):
+            left[0] -= 1
+            nm = rng.choice(names)
+            if d < depth - 1 and rng.random() < 0.45:
+                out.append((nm, go(d + 1)))
+            else:
+                out.append((nm, None))
+        return out
+    return go(0)
 
 
 # ----------------------------------------------------------------------------- generator-side tracker
@@ -377,8 +496,50 @@ class Tracker:
             return self.alive(x)
         if op[0] == "z":
             self.labels.add("null-call:" + op)
-            a = {"zadd": 3, "zaddn": 2, "zins": 2, "zmove": 1, "ztravh": 1}.get(op)
+            a = {"zadd": 3, "zaddn": 2, "zins": 2, "zmove": 1, "ztravh": 1, "zparse": 1}.get(op)
             return True if a is None else self.alive(int(o[a]))
+        if op == "parse":
+            x, ok, f = int(o[1]), o[2] == "K", token_forest(o[4])
+            if not self.alive(x):
+                return False
+            self.count += 1             # the scratch node of mpt_parse_node
+
+            def mk(items, par):
+                ids = []
+                for nm, k in items:
+                    i = self.fresh(nm, 4 if k is None else 0)
+                    self.par[i] = par
+                    ids.append(i)
+                    self.kids[i] = mk(k or [], i)
+                    if k and par is not None:
+                        self.labels.add("parse:depth>=3")
+                return ids
+            new = mk(f, None)
+            if not ok:
+                self.labels.add("parse:error" + ("-with-nodes" if new else "-no-node"))
+                if self.kids[x]:
+                    self.labels.add("parse:error-root-has-children")
+                for i in new:
+                    self.free(i)
+                return True
+            if not self.kids[x]:
+                self.labels.add("parse:new" if new else "parse:nothing-into-childless")
+                self.kids[x] = new
+            elif new:
+                self.labels.add("parse:merge")
+                old = set(self.name[k] for k in self.kids[x])
+                nw = set(self.name[k] for k in new)
+                self.labels.add("parse:merge-" + ("overlap" if old & nw else "disjoint"))
+                self.move_l(self.kids[x], x, new, None)
+                for k in list(self.kids[x]):
+                    self.free(k)
+                self.kids[x] = new
+            else:
+                self.labels.add("parse:nothing-keeps-children")
+                return True
+            for i in self.kids[x]:
+                self.par[i] = x
+            return True
         if op == "end":
             return True
         raise ValueError(op)
@@ -413,12 +574,25 @@ class C14(DiffProperty):
             "every place of the source, clear, destroy, gnode_swap/switch/relink, traversal in pre/in/post/level order with "
             "the depths the handler is told and a handler that ends the traversal at its k-th call, node_find/node_next, "
             "mpt_node_locate from every node with 16 kinds of query (text, explicit charset, binary, unnamed, identifier "
-            "without data, length without data), every entry point with a NULL node; after EVERY operation the harness dumps "
+            "without data, length without data), every entry point with a NULL node, mpt_parse_node (parse_node.c) of a "
+            "configuration text in the default format (<= 7 options/sections named a,b,c, nested up to depth 3, blank and "
+            "comment lines) into any live node: without children, with children (overlapping and disjoint names), a text "
+            "without elements (empty, blanks, comments only), a text with an error (closing brace too many at the end or "
+            "between elements, end of text inside a section), refused calls (no root, no context, unknown format); "
+            "after EVERY operation the harness dumps "
             "all raw links, its own well-formedness verdict and the shape; a case is non-trivial when at least one node gets "
             "linked; distinct = distinct case text")
     modelled = ("mptcore/node/{gnode_after,gnode_before,gnode_pos,node_insert,node_locate,node_unlink,node_move,node_clone,"
                 "tree_clone,node_clear,node_destroy,gnode_swap,gnode_relink,gnode_traverse (all four orders, handler result, "
-                "depth),gnode_level,node_find,node_next}.c transcribed in coq/C14/NodeModel.v over a pointer heap; an "
+                "depth),gnode_level,node_find,node_next}.c transcribed in coq/C14/NodeModel.v over a pointer heap; "
+                "mptcore/parse/parse_node.c (mpt_parse_node) in coq/C14/ParseModel.v as a composition of those operations: "
+                "the scratch node on its stack is a heap cell (allocated first, released at the return), the elements the "
+                "parser delivers are mpt_node_new + mpt_gnode_insert(section, 0, node) in text order (node_append.c and the "
+                "parser are not transcribed: the text enters the model as the tree it denotes, written next to the text "
+                "in the case by the generator that produced the text from that tree), then: error -> mpt_node_clear of the "
+                "scratch node; root without children -> root takes the list and the re-parent loop (the model of "
+                "gnode_swap(scratch, root): the same stores plus one into the dying scratch cell); both have children -> "
+                "mpt_node_move(&root->children, list), mpt_node_clear(root), take the list; nothing parsed -> root untouched; an "
                 "identifier is modelled as a name code with equality (the harness uses 7 identifiers of 4 kinds; a query "
                 "of mpt_node_locate is translated to the code of the identifier it denotes by a table in the driver, the "
                 "same table as actual arguments is in the harness); allocation failure is modelled for the clone functions "
@@ -435,17 +609,24 @@ class C14(DiffProperty):
                "node that is still linked or an ancestor of the position; merging lists of the same tree); the same guard "
                "is evaluated by harness, model and specification",
                "the table query token -> (ident, len, charset) in the harness and query token -> denoted name code in "
-               "ml/c14_driver.ml"]
+               "ml/c14_driver.ml",
+               "parse: the generator writes text and denoted tree (for a text with an error: the part built before the "
+               "parser gives up) into the case; that they belong together is checked on every run by the comparison itself "
+               "(number, order, names, nesting and values of the nodes the real parser creates are in the link dump); the "
+               "harness reserves the table index of the scratch node with a block it has released already"]
     level = "proof"
     level_text = ("proof: Coq theorems C14_step_refines_forest / C14_history_refines_forest / C14_wf_preserved / "
                   "C14_wf_links / C14_released_once / C14_cleanup_releases_all / C14_clone_equal_shape / C14_clone_succeeds / "
-                  "C14_walk_calls state, for every heap that represents an ordered forest (any number of nodes, depth, names) "
+                  "C14_walk_calls / C14_parse_node_refines_forest state, for every heap that represents an ordered forest (any "
+                  "number of nodes, depth, names) "
                   "and EVERY history of the history language — new, gnode_after/before, gnode_add/node_add and "
                   "gnode_insert/node_insert at every position code (by position and by name), unlink, mpt_node_move (merge "
                   "of lists with overlapping names, recursively, from a child list or a local list), node/list/tree clone "
                   "whatever fails on the way (an unclonable value, the k-th allocation), clear, destroy, gnode_swap, "
                   "gnode_switch (also of adjacent siblings), gnode_relink, traversal in pre/in/post/level order with a handler "
-                  "that may end it, node_find/node_next/node_locate from any node, the entry points with a NULL node and the "
+                  "that may end it, node_find/node_next/node_locate from any node, the entry points with a NULL node, "
+                  "mpt_parse_node into any node for any parsed tree and either outcome of the parser (scratch list, adopt / "
+                  "merge + clear + adopt / leave alone / clear on error) and the "
                   "final clean-up — that the transcribed pointer mechanism never dereferences NULL or freed memory, never frees "
                   "twice, returns what the forest operation returns and after EVERY step has exactly the links the "
                   "resulting forest dictates — which implies every explicit link rule (next/prev agree, every child names "
@@ -460,7 +641,11 @@ class C14(DiffProperty):
     level_note = ("Trusted: Coq kernel; hand transcription of mptcore/node/*.c (validated by the correspondence run, not "
                   "verified); identifiers are modelled as name codes with equality (7 identifiers of 4 kinds in the runs; the "
                   "translation of mpt_node_locate's (ident,len,charset) into the code it denotes is a table in driver and "
-                  "harness); malloc failure is modelled inside the clone functions only; two defects of /repo are reported "
+                  "harness); the configuration parser and node_append.c are not modelled (C08/C09): a text is represented by the "
+                  "tree it denotes, delivered as mpt_node_new + mpt_gnode_insert calls below a scratch cell, and the tail of "
+                  "mpt_parse_node (root->children = list; re-parent loop) by the model of gnode_swap(scratch, root), which makes "
+                  "the same stores to root and the list; malloc failure is modelled inside the clone functions only (not in "
+                  "mpt_node_append); two defects of /repo are reported "
                   "with patches (docs/C14_clone_ident_fail.diff, docs/C14_locate_ptr_ident.diff): the model follows the "
                   "patched code and the generator leaves out the cases that reach them until the switches PATCHED_* in "
                   "props/c14.py are flipped; the guards of the history language (insert only unlinked nodes, never below "
@@ -575,7 +760,7 @@ class C14(DiffProperty):
                 ok = False
                 cl.add("tracker-lost")
             cl.add("op:" + o[0] + ("" if ok else ":skipped"))
-            if ok and o[0] in ("after", "before", "add", "nadd", "ins", "nins"):
+            if ok and o[0] in ("after", "before", "add", "nadd", "ins", "nins", "parse"):
                 linked = True
         cl |= tr.labels
         return cl if linked else set()
@@ -627,7 +812,7 @@ class C14(DiffProperty):
                 continue
             unl = [x for x in alive if tr.unlinked(x)]
             kind = rng.choice(["link", "link", "unlink", "unlink", "move", "move", "clone", "clone", "clear", "destroy",
-                               "swap", "switch", "relink", "trav", "find", "next", "walk", "walk", "loc", "null"])
+                               "swap", "switch", "relink", "trav", "find", "next", "walk", "walk", "loc", "null", "parse"])
             if kind == "link" and unl:
                 self.gen_link(rng, tr, emit, pos, rng.choice(unl))
             elif kind == "unlink":
@@ -684,6 +869,10 @@ class C14(DiffProperty):
                 emit(["loc", rng.choice(alive), pos(2), rng.choice(QUERIES)])
             elif kind == "null":
                 emit(self.gen_null(rng, alive))
+            elif kind == "parse" and tr.count + 10 <= maxids:
+                r2 = rng.random()
+                emit(parse_op(rng, rng.choice(alive), random_forest(rng, rng.choice([1, 2, 4, 6])) if r2 < 0.75 else [],
+                              "K" if r2 < 0.5 or r2 >= 0.75 else rng.choice(["E1", "E2", "E3"]), rng.choice([0, 0.2])))
             elif kind == "trav":
                 emit(["trav", rng.choice(["pre", "in", "post"]), rng.choice([1, 2, 3, 3]), rng.choice(alive)])
         return " ".join(" ".join(o) for o in ops + [["end"]])
@@ -694,7 +883,98 @@ class C14(DiffProperty):
         return rng.choice([["zadd", rng.choice("gn"), p, x], ["zaddn", rng.choice("gn"), x, p], ["zins", rng.choice("gn"), x, p],
                            ["zmove", x], ["zpos", p], ["zunlink"], ["zdestroy"], ["zrelink"], ["zclone"], ["zlclone"],
                            ["ztclone"], ["ztrav", rng.choice(ORDERS), rng.choice([1, 2, 3])], ["ztravh", x], ["zloc", p],
-                           ["zfind"], ["znext"], ["zsame", rng.choice([0, 1, 2])], ["zsub", rng.choice([0, 1, 2])]])
+                           ["zfind"], ["znext"], ["zsame", rng.choice([0, 1, 2])], ["zsub", rng.choice([0, 1, 2])],
+                           ["zparse", x]])
+
+    def gen_parse(self, rng):
+        """mpt_parse_node into nodes without children, with children (overlapping and disjoint names, nested
+        sections), with texts that have no element and texts with an error, mixed with the other operations"""
+        tr = Tracker()
+        ops = []
+
+        def emit(o):
+            o = [str(x) for x in o]
+            try:
+                tr.apply(o)
+            except Exception:
+                pass
+            ops.append(o)
+        emit(["new", rng.choice(["a", "b", "c", "-"]), rng.choice([0, 0, 1])])
+        if rng.random() < 0.35:
+            for _ in range(rng.randint(1, 3)):
+                emit(["new", rng.choice("abc"), rng.choice([0, 1, 2])])
+                x = tr.count - 1
+                emit([rng.choice(["ins", "nins"]), rng.choice([y for y in tr.name if y != x and not tr.anc_or_eq(x, y)]),
+                      rng.choice([0, 1, -1]), x])
+        for _ in range(rng.randint(2, 5)):
+            alive = list(tr.name)
+            if not alive:
+                break
+            root = 0 if tr.alive(0) and rng.random() < 0.65 else rng.choice(alive)
+            r = rng.random()
+            if r < 0.5:
+                emit(parse_op(rng, root, random_forest(rng, rng.choice([1, 2, 3, 5, 7])), "K", rng.choice([0, 0.15, 0.4])))
+            elif r < 0.72:
+                emit(parse_op(rng, root, [], "K", rng.choice([0, 0.3, 0.7])))
+            else:
+                emit(parse_op(rng, root, random_forest(rng, rng.choice([0, 1, 2, 4, 6])) if rng.random() < 0.85 else [],
+                              rng.choice(["E1", "E2", "E2", "E3"]), rng.choice([0, 0.2])))
+            alive = list(tr.name)
+            if alive and rng.random() < 0.6 and tr.count < 40:
+                x = rng.choice(alive)
+                y = rng.choice(alive)
+                k = rng.choice(["tclone", "lclone", "unlink", "clear", "walk", "trav", "swap", "switch", "move", "destroy",
+                                "relink", "find", "new", "ftclone"])
+                if k in ("tclone", "lclone", "unlink", "clear", "destroy", "relink"):
+                    emit([k, x])
+                elif k == "ftclone":
+                    emit([k, rng.choice([1, 2, 3, 5]), x])
+                elif k == "walk":
+                    emit(["walk", rng.choice(ORDERS), 3, rng.choice([0, 0, 2]), x])
+                elif k == "trav":
+                    emit(["trav", rng.choice(["pre", "in", "post"]), 3, x])
+                elif k == "find":
+                    emit(["find", x, rng.choice("abc"), rng.choice([0, 1, -1, 2])])
+                elif k == "move":
+                    heads = [d for d in alive if tr.sibs(d)[0] == d and tr.sibs(tr.top(d)) is not tr.sibs(tr.top(x))]
+                    if heads:
+                        emit(["move", x, rng.choice(heads)])
+                elif k == "new":
+                    emit(["new", rng.choice("abc"), rng.choice([0, 1])])
+                    n = tr.count - 1
+                    emit([rng.choice(["ins", "nins", "ins"]), x, rng.choice([0, 1, -1]), n])
+                else:
+                    emit([k, x, y])
+        return " ".join(" ".join(o) for o in ops + [["end"]])
+
+    def parse_sweep(self):
+        """directed: three kinds of root x texts (no element in several spellings, options, sections, nested,
+        repeated names) x outcomes of the parser (fine, brace too many at the end / in the middle, end inside a section)"""
+        rng = random.Random(20261002)
+        cases = []
+        t0 = [("a", None), ("b", [("c", None), ("a", [("b", None)])]), ("c", None)]
+        roots = ["new c 0",
+                 "new c 0 new a 1 new b 0 ins 0 0 1 ins 0 0 2 new a 0 ins 2 0 3",           # 0(1a,2b(3a))
+                 "new c 0 " + " ".join(parse_op(rng, 0, t0, "K", 0))]                        # 0(2a,3b(4c,5a(6b)),7c)
+        forests = [[], [("a", None)], [("b", [])], [("b", [("a", None)])], [("c", None), ("a", None)],
+                   [("b", [("c", None), ("a", [("b", None)])])], [("a", [("b", None)]), ("a", None)],
+                   [("c", [("a", [("b", [("c", None)])])])], [("a", []), ("b", [("a", [("c", None), ("b", None)]), ("b", None)]), ("c", [])],
+                   t0]
+        empties = ["-", "0a", "20200a0a", "2320780a", "2378", "0a23207b0a0a", "09230a"]
+        for r in roots:
+            cases.append("%s zparse 0 end" % r)
+            cases.append("%s zparse 9 tclone 0 end" % r)
+            for e in empties:
+                cases.append("%s parse 0 K %s - end" % (r, e))
+                cases.append("%s parse 0 K %s - tclone 0 clear 0 end" % (r, e))
+            for f in forests:
+                for kind in ("K", "K", "E1", "E2", "E3"):
+                    for tail in ("end", "tclone 0 end", "parse 0 K - - unlink 2 end"):
+                        cases.append("%s %s %s" % (r, " ".join(parse_op(rng, 0, f, kind, rng.choice([0, 0.3]))), tail))
+                # into a node below the root, and twice in a row
+                cases.append("%s %s %s end" % (r, " ".join(parse_op(rng, 0, f, "K", 0.1)), " ".join(parse_op(rng, 2, f, "K", 0.1))))
+                cases.append("%s %s %s end" % (r, " ".join(parse_op(rng, 0, f, "K", 0)), " ".join(parse_op(rng, 0, f, "K", 0))))
+        return cases
 
     def gen_level(self, rng):
         """a forest of depth up to 4 with uneven levels (childless nodes between parents), walked in every order
@@ -929,6 +1209,9 @@ class C14(DiffProperty):
             cases.append(self.gen_merge(rng))
         for i in range(n // 4):
             cases.append(self.gen_level(rng))
+        cases += self.parse_sweep()
+        for i in range(n // 3):
+            cases.append(self.gen_parse(rng))
         return [c for c in cases if allowed(c)]
 
 
